@@ -85,6 +85,52 @@ class Keywords(SubCheck):
                                                                           if case[0] != "none" else None))
 
 
+
+class Spellings(SubCheck):
+    """a small alphabet of spellings - supported ones, and near misses that differ from a supported one by letter case or
+    blanks only - each decided on its own; the point of the sub-check is its `after:spellings` wrapper (mc/crosstalk.py):
+    every ordered pair of these spellings parsed in one process, so that whatever the library remembers about one
+    text (a memo keyed on a normalised form, say) cannot change what the next one denotes.  A near miss the property
+    does not cover has no expected value of its own: only its behaviour must not depend on its predecessor."""
+    name = "spellings"
+    TABLE = [("rgb(255,0,0)", (255, 0, 0, 255)), ("RGB(255, 0, 0)", None), ("rgb(255,0,0) ", None),
+             ("#ff8000", (255, 128, 0, 255)), ("#FF8000", (255, 128, 0, 255)), ("#FF8000 ", None),
+             ("#0f0", (0, 255, 0, 255)), (" #0f0", None), ("#0F0", (0, 255, 0, 255)),
+             ("hsl(240,100%,50%)", (0, 0, 255, 255)), ("HSL(240, 100%, 50%)", None),
+             ("rgba(0,0,255,0.5)", (0, 0, 255, (127, 128))), ("rgba (0,0,255,0.5)", None),
+             ("darkgreen", (0, 100, 0, 255)), ("DarkGreen", (0, 100, 0, 255)), ("Dark Green", None),
+             ("transparent", (0, 0, 0, 0)), (" transparent ", None),
+             ("#336699cc", (0x33, 0x66, 0x99, 0xcc)), ("#336699CC", (0x33, 0x66, 0x99, 0xcc)),
+             ("rgb(100%,0%,50%)", (255, 0, (127, 128), 255)), ("Rgb(100%,0%,50%)", None),
+             ("red", (255, 0, 0, 255)), ("r e d", None)]
+
+    def __init__(self, svg):
+        self.svg = svg
+
+    def size(self):
+        return len(self.TABLE)
+
+    def case(self, i):
+        return [self.TABLE[i][0], i]
+
+    def run(self, case):
+        out = Outcome()
+        sp, i = case
+        exp = self.TABLE[i][1]
+        c = out.keep(self.svg.Color(sp))
+        obs = rgba_of(c)
+        out.outcome = (obs, c.hexa if c.value is not None else None)
+        out.nontrivial.append(("sp", sp))
+        if exp is not None:
+            ok = all((o in e) if isinstance(e, tuple) else (o == e) for o, e in zip(obs, exp))
+            if not ok:
+                out.fail("%r denotes %r" % (sp, exp), [list(e) if isinstance(e, tuple) else e for e in exp], list(obs),
+                         spelling=sp)
+            if c.value is not None and not (self.svg.Color(c.hex) == c):
+                out.fail("Color(c.hex) == c for c = Color(%r)" % sp, c.hexa, self.svg.Color(c.hex).hexa, spelling=sp)
+        return out
+
+
 HEXD = "0123456789abcdef"
 
 
@@ -481,7 +527,7 @@ def refused_check(svg):
 
 def build(tier, seed, svg):
     return [Keywords(svg), ShortHex(svg), LongHex(svg, tier), RgbFunc(svg, tier), HslFunc(svg, tier), Setters(svg),
-            Packings(svg, tier), HslAccess(svg), stale_check(svg, tier), refused_check(svg)]
+            Packings(svg, tier), HslAccess(svg), stale_check(svg, tier), refused_check(svg), Spellings(svg)]
 
 
 MATCHERS = {}
